@@ -7,6 +7,7 @@ conversion are proved for hsla-stored colours and stated `_partial`; the missing
 round-trip theorem `rgb_hsl_rgb` of C31.
 -/
 import RsassModel.Color.LemmasFn
+import RsassModel.Color.LemmasRT
 namespace C32
 open Color
 
@@ -251,5 +252,115 @@ theorem grayscale_spec (c : Col Rat) (h : c.WF) :
   · simp only [grayscale, Col.alpha, Hsla.new]
     rw [cminmax_id _ a0 a1]
     exact Col.toHsla_alpha c h
+
+/-! ## Lifted to rgba-stored colours through the round trip `C31.rgb_hsl_rgb`
+
+The `_partial` theorems above are for hsla-stored colours.  Each is now also proved for
+rgba-stored colours (hex literals, names, `rgb()`): the function first converts with
+`Rgba.toHsla`, the hsla-level identity below gives back exactly that hsla value, and
+`Rgba.hsl_roundtrip` (rgb → hsl → rgb is the identity on well-formed rgba) closes the gap.
+Still open: hwba-stored colours (un-normalised hue kept by `Hwba::new`). -/
+
+/-- two half turns give back exactly the same hsla value -/
+theorem complement_twice_eq (s : Hsla Rat) (h : s.WF) :
+    ((Col.hsla s).rotateHue CQuirks.spec 180).rotateHue CQuirks.spec 180 = Col.hsla s := by
+  obtain ⟨⟨h0, h1⟩, ⟨s0, s1⟩, ⟨l0, l1⟩, ⟨a0, a1⟩⟩ := h
+  have e : Hsla.new CQuirks.spec ((Hsla.new CQuirks.spec (s.h + 180) s.s s.l s.a s.fmt).h + 180)
+      (Hsla.new CQuirks.spec (s.h + 180) s.s s.l s.a s.fmt).s
+      (Hsla.new CQuirks.spec (s.h + 180) s.s s.l s.a s.fmt).l
+      (Hsla.new CQuirks.spec (s.h + 180) s.s s.l s.a s.fmt).a
+      (Hsla.new CQuirks.spec (s.h + 180) s.s s.l s.a s.fmt).fmt = s := by
+    simp only [Hsla.new, CQuirks.spec, Bool.false_eq_true, if_false]
+    have := degMod_half_half s.h h0 h1
+    simp only [CQuirks.spec] at this
+    rw [this, clamp_clamp, clamp_clamp, clamp_id _ _ _ s0 s1, clamp_id _ _ _ l0 l1, cminmax_id _ a0 a1,
+      cminmax_id _ a0 a1]
+  show Col.hsla _ = Col.hsla s
+  rw [e]
+
+/-- FULL for rgba- and hsla-stored colours: `complement(complement(c))` is `c`. -/
+theorem complement_invol_rgba (c : Rgba Rat) (h : c.WF) :
+    (((Col.rgba c).rotateHue CQuirks.spec 180).rotateHue CQuirks.spec 180).eqv CQuirks.spec (Col.rgba c)
+      = true := by
+  have e := complement_twice_eq (c.toHsla CQuirks.spec) (Rgba.toHsla_wf c)
+  have : (Col.rgba c).rotateHue CQuirks.spec 180 = (Col.hsla (c.toHsla CQuirks.spec)).rotateHue CQuirks.spec 180 := rfl
+  rw [this, e]
+  exact eqv_hsla_of_rgba c h (c.toHsla CQuirks.spec).fmt
+
+/-- a full turn gives back exactly the same hsla value -/
+theorem adjust_hue_360_eq (s : Hsla Rat) (h : s.WF) :
+    (Col.hsla s).rotateHue CQuirks.spec 360 = Col.hsla s := by
+  obtain ⟨⟨h0, h1⟩, ⟨s0, s1⟩, ⟨l0, l1⟩, ⟨a0, a1⟩⟩ := h
+  have e : Hsla.new CQuirks.spec (s.h + 360) s.s s.l s.a s.fmt = s := by
+    simp only [Hsla.new, CQuirks.spec, Bool.false_eq_true, if_false]
+    have := degMod_add_360 s.h h0 h1
+    simp only [CQuirks.spec] at this
+    rw [this, clamp_id _ _ _ s0 s1, clamp_id _ _ _ l0 l1, cminmax_id _ a0 a1]
+  show Col.hsla (Hsla.new CQuirks.spec (s.h + 360) s.s s.l s.a s.fmt) = Col.hsla s
+  rw [e]
+
+/-- FULL for rgba- and hsla-stored colours: `adjust-hue(c, 360deg)` is `c`. -/
+theorem adjust_hue_360_rgba (c : Rgba Rat) (h : c.WF) :
+    ((Col.rgba c).rotateHue CQuirks.spec 360).eqv CQuirks.spec (Col.rgba c) = true := by
+  have e := adjust_hue_360_eq (c.toHsla CQuirks.spec) (Rgba.toHsla_wf c)
+  have : (Col.rgba c).rotateHue CQuirks.spec 360 = (Col.hsla (c.toHsla CQuirks.spec)).rotateHue CQuirks.spec 360 := rfl
+  rw [this, e]
+  exact eqv_hsla_of_rgba c h (c.toHsla CQuirks.spec).fmt
+
+/-- `darken(lighten(s, a), a)` is exactly `s` (format flag reset) when nothing was clamped -/
+theorem lighten_darken_eq (s : Hsla Rat) (a : Rat) (h : s.WF) (ha : 0 ≤ a) (hl : s.l + a ≤ 1) :
+    lightenBy CQuirks.spec (lightenBy CQuirks.spec (Col.hsla s) a true) a false
+      = Col.hsla { s with fmt := false } := by
+  obtain ⟨⟨h0, h1⟩, ⟨s0, s1⟩, ⟨l0, l1⟩, ⟨a0, a1⟩⟩ := h
+  simp only [lightenBy, Col.toHsla, Hsla.new, CQuirks.spec, Bool.false_eq_true, if_false, if_true]
+  have d := degMod_id { } s.h h0 h1
+  rw [d, d, clamp_clamp, clamp_clamp, clamp_clamp, clamp_id _ _ _ s0 s1,
+    clamp_id 0 1 (s.l + a) (by linarith) hl, cminmax_id _ a0 a1, cminmax_id _ a0 a1]
+  have : s.l + a - a = s.l := by ring
+  rw [this, clamp_id _ _ _ l0 l1]
+
+/-- FULL for rgba- and hsla-stored colours: `darken(lighten(c, a), a)` is `c` when nothing was
+clamped (`lightness(c) + a ≤ 100%`). -/
+theorem lighten_darken_cancel_unclamped_rgba (c : Rgba Rat) (a : Rat) (h : c.WF) (ha : 0 ≤ a)
+    (hl : (c.toHsla CQuirks.spec).l + a ≤ 1) :
+    (lightenBy CQuirks.spec (lightenBy CQuirks.spec (Col.rgba c) a true) a false).eqv CQuirks.spec
+      (Col.rgba c) = true := by
+  have e := lighten_darken_eq (c.toHsla CQuirks.spec) a (Rgba.toHsla_wf c) ha hl
+  have : lightenBy CQuirks.spec (Col.rgba c) a true
+      = lightenBy CQuirks.spec (Col.hsla (c.toHsla CQuirks.spec)) a true := rfl
+  rw [this, e]
+  exact eqv_hsla_of_rgba c h false
+
+/-- `desaturate(saturate(s, a), a)` is exactly `s` (format flag reset) when nothing was clamped -/
+theorem saturate_desaturate_eq (s : Hsla Rat) (a : Rat) (h : s.WF) (ha : 0 ≤ a) (hl : s.s + a ≤ 1) :
+    desaturateBy CQuirks.spec (saturateBy CQuirks.spec (Col.hsla s) a) a
+      = Col.hsla { s with fmt := false } := by
+  obtain ⟨⟨h0, h1⟩, ⟨s0, s1⟩, ⟨l0, l1⟩, ⟨a0, a1⟩⟩ := h
+  simp only [desaturateBy, saturateBy, Col.toHsla, Hsla.new, CQuirks.spec, Bool.false_eq_true, if_false]
+  have d := degMod_id { } s.h h0 h1
+  rw [d, d, clamp_clamp, clamp_clamp, clamp_id 0 1 (s.s + a) (by linarith) hl, clamp_id _ _ _ l0 l1,
+    cminmax_id _ a0 a1, cminmax_id _ a0 a1]
+  have : s.s + a - a = s.s := by ring
+  rw [this, clamp_id _ _ _ s0 s1]
+
+/-- FULL for rgba- and hsla-stored colours: `desaturate(saturate(c, a), a)` is `c` when nothing
+was clamped. -/
+theorem saturate_desaturate_cancel_unclamped_rgba (c : Rgba Rat) (a : Rat) (h : c.WF) (ha : 0 ≤ a)
+    (hl : (c.toHsla CQuirks.spec).s + a ≤ 1) :
+    (desaturateBy CQuirks.spec (saturateBy CQuirks.spec (Col.rgba c) a) a).eqv CQuirks.spec
+      (Col.rgba c) = true := by
+  have e := saturate_desaturate_eq (c.toHsla CQuirks.spec) a (Rgba.toHsla_wf c) ha hl
+  have : saturateBy CQuirks.spec (Col.rgba c) a
+      = saturateBy CQuirks.spec (Col.hsla (c.toHsla CQuirks.spec)) a := rfl
+  rw [this, e]
+  exact eqv_hsla_of_rgba c h false
+
+/-- FULL for rgba-stored colours: `color.scale(c)` with identity arguments (none; by `scale_zero`
+also `0%` ones) returns a colour equal to `c`. -/
+theorem scale_identity_rgba (c : Rgba Rat) (h : c.WF) :
+    ∃ r, scaleColor CQuirks.spec (Col.rgba c) [] = some r ∧ r.eqv CQuirks.spec (Col.rgba c) = true := by
+  refine ⟨Col.hsla (c.toHsla CQuirks.spec), ?_, eqv_hsla_of_rgba c h (c.toHsla CQuirks.spec).fmt⟩
+  have e := Hsla.new_id (c.toHsla CQuirks.spec) (Rgba.toHsla_wf c) (c.toHsla CQuirks.spec).fmt
+  simp [scaleColor, takeOpt, kw, only, cmb, Col.toHsla, e]
 
 end C32
